@@ -21,6 +21,7 @@ From HL7 Require Import Lib.Str Model.Ec Model.Result Model.Header Model.Ref Mod
      Model.MsgTree Model.Groups Model.Message Model.MessageProf Model.Validate
      Proofs.ProfileFacts Proofs.GroupsFacts Proofs.ProfileMsg Proofs.ProfileMsgWitness Gen.Params.
 From HL7 Require Gen.Tables_v2_5.
+From HL7 Require Proofs.PiecesFacts Proofs.LineEnds.
 Import ListNotations.
 Open Scope bs_scope.
 
@@ -201,6 +202,15 @@ Theorem C18_placed_segment_structure_from_profile : forall t lvl e leaf piece sr
   parse_structure t sr = Ok (s_st a).
 Proof. exact placed_segment_structure. Qed.
 Print Assumptions C18_placed_segment_structure_from_profile.
+
+(* line ends do not influence what the profile gives: LF after every CR leaves the parse with a message
+   profile unchanged (parse_segments strips each piece before it takes the segment name; with the name
+   taken from the unstripped piece a CR LF message lost its groups AND the profile's references) *)
+Theorem C18_crlf_same_profile_parse : forall lib dflt lvl leafv fg p text,
+  parse_message_prof_gen lib dflt lvl leafv fg p (Proofs.PiecesFacts.crlf text) =
+  parse_message_prof_gen lib dflt lvl leafv fg p text.
+Proof. exact Proofs.LineEnds.parse_message_prof_gen_crlf. Qed.
+Print Assumptions C18_crlf_same_profile_parse.
 
 (* (d) find_groups=False.  What the property asks - every segment the profile's message reference declares
    carries the declared sub-reference - is FALSE of hl7apy: parse_segments ignores `references` in that mode
